@@ -1374,8 +1374,6 @@ struct TwExec {
                 }
                 if (it.kind == RK_DEF && !method_loaded(it.method))
                     continue; // a definition needs its method
-                if (it.kind == RK_DEF && it.has_next && g_tw_focus == "C13")
-                    continue; // decode does not install next (finding K1)
                 if (it.kind == RK_METHOD && method_loaded(it.method))
                     continue;
                 it.load();
